@@ -107,7 +107,12 @@ func (x *xEnv) finish(keys ...string) {
 	// Start-style work may still be running: wait until the per-key map is empty (reflection, by
 	// field name, so a rename degrades to a skipped sub-check instead of a build failure)
 	f := reflect.ValueOf(x.e).Elem().FieldByName("work")
-	if f.IsValid() && f.Kind() == reflect.Map {
+	if vrt.RaceBuild {
+		// peeking at the map without its lock is itself a data race: not in the race tier
+		for i := 0; i < 50; i++ {
+			vrt.Yield()
+		}
+	} else if f.IsValid() && f.Kind() == reflect.Map {
 		for i := 0; f.Len() != 0; i++ {
 			vrt.Yield()
 		}
